@@ -29,7 +29,8 @@
      tx_counter   increment_transmit_packet_counter() not called exactly once when a committed PDU
                   is acknowledged (never for empty PDUs or retransmissions)
      mic_counter  receive counter advanced for a PDU whose MIC check failed
-   Which clause belongs to which property: `tag_in`. *)
+   Which clause belongs to which property: `tag_in`; how one observed operation is judged for one
+   property: `judge`. *)
 From BT Require Import Base.ListX PduBuf.PduBufModel.
 Local Open Scope N_scope.
 
@@ -211,15 +212,56 @@ Definition mstep (m : mon) (o : op) (r : out) : verdict * mon :=
   | _, _ => (Bad t_shape, m)
   end.
 
-(* first violation of a clause of property p: Some (position, tag). A violated clause of another
-   property ends the judgement (the monitor's abstract state is no longer meaningful). *)
+(* The counter clauses on their own (they do not influence the abstract state). *)
+Definition counter_tag (t : nat) : bool := existsb (Nat.eqb t) [t_rx_counter; t_tx_counter; t_mic_counter].
+
+Definition counter_verdict (m : mon) (o : op) (r : out) : verdict :=
+  match o, r with
+  | Rx hl pb, OResp KR _ _ _ rc tc =>
+      let '(m1, etc) := m_ack m (has hl nesn_flag) in
+      let '(m2, erc) := m_accept m1 hl pb in
+      if negb (rc =? erc) then Bad t_rx_counter
+      else if negb (tc_ok m2 tc etc) then Bad t_tx_counter else Ok
+  | Mic hl pb, OResp KA _ _ _ rc tc =>
+      let '(m1, etc) := if negb (llid hl =? 0) then m_ack m (has hl nesn_flag) else (m, 0) in
+      if negb (rc =? 0) then Bad t_mic_counter
+      else if negb (tc_ok m1 tc etc) then Bad t_tx_counter else Ok
+  | _, OResp KN _ _ _ rc tc =>
+      if negb (rc =? 0) then Bad t_rx_counter else if negb (tc =? 0) then Bad t_tx_counter else Ok
+  | _, _ => Ok
+  end.
+
+(* One observed operation judged for property p:
+     JOk m'   no clause of p is violated, go on with m'
+     JBad t   clause t of p is violated
+     JStop    a clause of another property is violated in a way that makes the abstract state
+              meaningless: the judgement for p ends here (that property's check reports it)
+   A violated counter clause does not stop the other properties (counters are not part of the
+   state); a violated state clause of another property still lets p report a counter clause
+   violated by the same operation. *)
+Inductive jres := JOk (m : mon) | JBad (tag : nat) | JStop.
+
+Definition judge (p : prop) (m : mon) (o : op) (r : out) : jres :=
+  match mstep m o r with
+  | (Ok, m') => JOk m'
+  | (Bad tag, m') =>
+      if tag_in p tag then JBad tag
+      else if counter_tag tag then JOk m'
+      else match counter_verdict m o r with
+           | Bad t2 => if tag_in p t2 then JBad t2 else JStop
+           | Ok => JStop
+           end
+  end.
+
+(* first violation of a clause of property p: Some (position, tag) *)
 Fixpoint monitor_from (p : prop) (m : mon) (pos : nat) (tr : list (op * out)) : option (nat * nat) :=
   match tr with
   | [] => None
   | (o, r) :: t =>
-      match mstep m o r with
-      | (Ok, m') => monitor_from p m' (S pos) t
-      | (Bad tag, _) => if tag_in p tag then Some (pos, tag) else None
+      match judge p m o r with
+      | JOk m' => monitor_from p m' (S pos) t
+      | JBad tag => Some (pos, tag)
+      | JStop => None
       end
   end.
 
